@@ -233,6 +233,15 @@ impl Partition {
             self.partition_id
         );
 
+        // The cache is not trimmed when retention deletes a segment, so it may still hold messages below the
+        // earliest retained offset: such a poll has to be answered by the segments, like with the cache off.
+        if let Some(first_segment) = self.segments.first() {
+            if start_offset < first_segment.start_offset {
+                cache.record_miss();
+                return None;
+            }
+        }
+
         if start_offset >= first_buffered_offset {
             cache.record_hit();
             return Some(self.load_messages_from_cache(start_offset, end_offset));
